@@ -73,6 +73,18 @@ fn main() {
         c15::hunt_fgmax(args[2].parse().unwrap(), args[3].parse().unwrap(), args[4].parse().unwrap(), args[5].parse().unwrap());
         return;
     }
+    if args[1] == "hunt-noninv" {
+        c04::hunt_noninv(args[2].parse().unwrap(), args[3].parse().unwrap(), args[4].parse().unwrap());
+        return;
+    }
+    if args[1] == "hunt-d7" {
+        c15::hunt_d7(args[2].parse().unwrap(), args[3].parse().unwrap(), args[4].parse().unwrap());
+        return;
+    }
+    if args[1] == "hunt-refkey" {
+        c16::hunt_refkey(args[2].parse().unwrap(), args[3].parse().unwrap());
+        return;
+    }
     if args[1] == "hunt-lastbyte" {
         c05::hunt_lastbyte(args[2].parse().unwrap(), args[3].parse().unwrap(), args[4].parse().unwrap());
         return;
